@@ -2,6 +2,7 @@ package datadog
 
 import (
 	"errors"
+	"fmt"
 	"io"
 	"strings"
 	"time"
@@ -77,6 +78,11 @@ func (cfg *Config) VerifyConfig(schema base.LogSchema) error {
 
 	if cfg.Upstream.HTTPTimeout == 0 {
 		return errors.New("expected a valid datadog api timeout")
+	}
+
+	// a misspelt name here would go unnoticed and leave the field in the output
+	if _, err := schema.CreateFieldLocators(cfg.Serialization.HiddenFields); err != nil {
+		return fmt.Errorf(".serialization.hiddenFields: %w", err)
 	}
 
 	return nil
